@@ -741,6 +741,45 @@ class C08(core.PropertyCheck):
             return f"role text {text!r}: label {role['label']!r} invented"
         return None
 
+    # ---- :doc: roles written in an include that lives in another directory than the page ----
+    def extra_checks(self, tier, rng):
+        """A relative `:doc:` target without text of its own, written in an include: the link is emitted as written and leads, from
+        the page that is built, to a page next to THAT page; the text put into it has to be the title of the page it leads to.
+        (rst text through the real parser + Postprocessor; the file the parser looks for while parsing is not on disk here, so its
+        CannotOpenFile diagnostics are not looked at.)"""
+        viol, n_ = [], 0
+        for _ in range(6 if tier == "quick" else 60):
+            pdir = rng.choice(["guides", "ref/deep", "a"])
+            idir = rng.choice(["includes", "includes/sub", "shared"])
+            name = rng.choice(["install", "setup", "x"])
+            spell = rng.choice([name, "./" + name, name])
+            t_near, t_far = f"Near {rng.randint(0, 99)}", f"Far {rng.randint(0, 99)}"
+            files = {
+                "index.txt": f"=====\nIndex\n=====\n\n.. toctree::\n\n   /{pdir}/index\n   /{pdir}/{name}\n   /{idir}/{name}\n",
+                f"{pdir}/index.txt": f"=====\nGuide\n=====\n\n.. include:: /{idir}/fact.rst\n",
+                f"{pdir}/{name}.txt": "=" * len(t_near) + f"\n{t_near}\n" + "=" * len(t_near) + "\n\nText.\n",
+                f"{idir}/{name}.txt": "=" * len(t_far) + f"\n{t_far}\n" + "=" * len(t_far) + "\n\nText.\n",
+                f"{idir}/fact.rst": f"See :doc:`{spell}` for more.\n",
+            }
+            case = {"kind": "docrel", "files": files, "page": f"{pdir}/index.txt", "near": t_near, "far": t_far}
+            n_ += 1
+            try:
+                pages = [rst.parse(text, fid)[0] for fid, text in files.items()]
+                res = pp.run(pages)
+                roles = [x for x in pp.walk(res.pages[n.FileId(case["page"])].ast) if isinstance(x, n.RefRole) and x.name == "doc"]
+            except Exception as e:
+                viol.append({"case": case, "desc": f"doc-title: building the project raised {type(e).__name__}: {e}"[:300], "key": "doc-title:raised"})
+                break
+            got = ["".join(c.get_text() for c in r.children) for r in roles]
+            links = [r.fileid[0] if r.fileid else None for r in roles]
+            if got != [t_near]:
+                viol.append({"case": case, "impl": {"text": got, "fileid": links},
+                             "desc": (f"doc-title: :doc:`{spell}` written in {idir}/fact.rst and built into {case['page']} is emitted as {links} - from that "
+                                      f"page it leads to {pdir}/{name} ({t_near!r}) - but carries the text {got} (the page {idir}/{name} is titled {t_far!r})"),
+                             "key": "doc-title"})
+                break
+        return viol, {"relative_doc_roles_in_includes": n_}
+
     def finding_key(self, case, impl, desc):
         d = re.sub(r"\(line \d+\)|line \d+", "", desc)
         d = re.sub(r"'[^']*'|\"[^\"]*\"|\[[^\]]*\]|\([^)]*\)|\{[^}]*\}", "", d)
